@@ -362,6 +362,9 @@ func (p *PeerSim) resolve(sid string) (*SwapCtx, string) {
 // Craft builds the payload for a message step. Returns type hex string and payload.
 func (p *PeerSim) Craft(m *MsgSpec) (string, []byte, *SwapCtx, error) {
 	if m.Kind == "raw" {
+		if m.Raw == "big" { // larger than the 100 KiB the node accepts
+			return m.RawType, []byte(`{"swap_id":"` + strings.Repeat("ab", 32) + `","message":"` + strings.Repeat("x", 100*1024) + `"}`), nil, nil
+		}
 		return m.RawType, []byte(m.Raw), nil, nil
 	}
 	t, ok := typeOfKind[m.Kind]
